@@ -155,7 +155,9 @@ def check_life(pid, tier, seed):
     #     before the drain (crash + replay of every HTLC / a further fully funding set) and judged for this property.
     leads = [r for r, (pre, post, kf) in viol.items() if pid not in pre and pid not in post and not kf and (pre | post) - {"PAYSHAPE"}]
     amplified = 0
-    if leads and not bad:
+    # (not for the direct-call runs of the provider: a lifecycle paying the same invoice next to a direct caller of
+    #  pay() would break assumption E3, and the lifecycle predicates mean nothing in those runs)
+    if leads and not bad and not spec.get("direct"):
         ajobs = []
         for r in sorted(leads)[:150]:
             for epi in (["crash_replay"], ["probe"], ["crash_replay", "probe"]):
